@@ -72,6 +72,9 @@ KINDS = {
 }
 
 
+DOMAIN_ROLES = ["000D", "000E", "010E", "000F"]
+
+
 def ctx_values(space: str, r) -> str:
     if space == "zone":
         return f"{r.randrange(12):02X}"
@@ -82,7 +85,9 @@ def ctx_values(space: str, r) -> str:
     if space == "frag":
         zi = r.choice([0, 0, r.randrange(12)])
         return f"{zi:02X}{r.randrange(1, 4):02X}{'23' if (zi == 0 and r.random() < 0.5) else '20'}"
-    if space == "zr":  # zone idx + device role
+    if space == "zr":  # zone idx + device role; or a domain's role: DHW sensor / DHW valve / heating valve / appliance control
+        if r.random() < 0.3:
+            return r.choice(DOMAIN_ROLES)
         return f"{r.randrange(12):02X}{r.choice(['00', '04', '08', '09', '0A', '0B', '11'])}"
     if space == "zt":  # 00 + zone type
         return f"00{r.choice(['04', '08', '09', '0A', '0B', '11', '0D', '0E', '0F'])}"
@@ -95,6 +100,8 @@ def other_ctx(space: str, z: str, r) -> str | None:
         cands = [c for c in ("00", f"{(int(z, 16) + 1) % 12:02X}", f"{(int(z, 16) - 1) % 12:02X}") if c != z]
         if cands:
             return r.choice(cands[:1] * 3 + cands[1:])
+    if space == "zr" and z in DOMAIN_ROLES:  # another role of the hot-water / system domains (they share index 00)
+        return r.choice([x for x in DOMAIN_ROLES if x != z])
     if space == "zr" and r.random() < 0.6:  # same zone, another role
         alt = [z[:2] + x for x in ("00", "04", "08", "0A") if z[:2] + x != z]
         return r.choice(alt)
